@@ -25,6 +25,49 @@ add("C10", "4/C10", E1,
     "each compared with the bisect definition: a coverage statement over the whole bounded space, not a sample.",
     "bisect reference model; CPython/NumPy float comparison semantics; inputs beyond the lattice bounds are not covered")
 
+add("C01", "4/C01", E1,
+    "Every grid of 5..6/8 strictly increasing samples on an integer lattice (and affine float images) x every increasing "
+    "reference tuple on the half-integer lattice x 5 ways of designating fixed points x 2x2 rules x 4 exponents x "
+    "spanning values, filtered by the stated precondition; every interval integral of the result compared with the "
+    "exact reference integral. Exhaustive within the bounds, so a wrong weight, rule, slice or search shows on "
+    "thousands of lattice points.",
+    "exact Fraction reference for the reference integrals; 1e-9 relative tolerance; selection and value stages enumerated "
+    "against reduced alphabets of each other (factorisation argued in DESIGN.md)")
+add("C02", "4/C02", E1,
+    "All small series (grids G(8,m), m<=5, lattice values) and structured series to 60 points x 6 strategies x parameter "
+    "alphabets x n x both target rules x append variants through the real Weaver pipeline, plus all 19 bundled datasets; "
+    "each interval mean compared with the original average and process.average with the original abscissae.",
+    "1e-9 relative tolerance; default fixed points; FITPACK/NumPy trusted")
+add("C03", "4/C03", E1,
+    "The C01 space judged by displacement clauses (bytes outside the span, fixed points, one direction, cross-multiplied "
+    "proportionality to the documented weights, idempotence) plus a kernel basis sweep over every grid of 3..6/8 points on "
+    "{0..10} x 3 rational images x 2 rules x integer exponents 1..3 against exact Fraction images.",
+    "affinity in (y, P) is checked on a basis + 5 lattice points per grid, not proved; non-integer exponents only in the C01-space part")
+add("C04", "4/C04", E1,
+    "7 strategy classes x every grid G(8,m), m<=5/6 (int/float, list/array) x n x window/beta/exponent alphabets x 3 value "
+    "patterns: array types, lengths, bit-exact n-th abscissae, equal spacing to 4 ulp; n<2 rejection for every class.",
+    "np.linspace rounding bounded by 4 ulp; suppliers tried are np.interp returning float / 0-d array")
+add("C05", "4/C05", E1,
+    "Every y in V^5 (all tie patterns) x x-patterns x n x alpha/a x beta x exponent x smoothing for the four window "
+    "strategies, judged by output-only invariants (hull, plateau count/contiguity, monotone), plus piecewise-constant, "
+    "spline and constant-series clauses. Known finding K1 (exponent 0.1, monotone) is listed, everything else must hold.",
+    "1e-9 tolerance; dyadic parameter alphabets; quick thins the largest parameter products deterministically (thorough enumerates them fully)")
+add("C06", "4/C06", E1,
+    "The C05 space (adaptive smoothing 1) compared sample by sample with a docstring-derived reference model of the four "
+    "strategies (exact windows, both truncations accepted at exact-integer boundaries), an exact-arithmetic slice, and the "
+    "five shape functions on a lattice of abscissae x end values x 7 exponents.",
+    "samples depending on the virtual interval behind the last point are excluded; exp_lin/lin_exp_xy closed forms as pinned by the shipped doctests")
+add("C07", "4/C07", E1,
+    "For every y in {0,1,3}^6 / V^6 x x-patterns x n x parameters x 6 strategies: 4 value maps, 4 time maps, every "
+    "single-value replacement (locality window 1 / 2 intervals) and the weight matrix W reproduced on the whole lattice "
+    "(rows sum to 1, non-negative except spline).",
+    "adaptive strategies only under exactly representable value maps; 1e-9 tolerance")
+add("C17", "4/C17", E1,
+    "Literal list-code contracts of the oversample/extend/append helpers, the interval view (every [i,j] read and write for "
+    "every length 1..24 x interval size 1..8, layouts, closed intervals, oversampling) and block averaging incl. the round "
+    "trip, on all arrays of length 1..5/6 over small lattices and structured arrays to 50, n=1..16.",
+    "np.linspace/np.pad trusted; extend_linspace defaults only defined for len(a) > n")
+
 ALL = ["C%02d" % i for i in range(1, 21)]
 NOT_BUILT = "check not built yet in this session (design in DESIGN.md section 4); will be claimed once its harness exists"
 
